@@ -4779,7 +4779,7 @@ def _make_segments(part):
                 segment_info[ss]["to"].append(segment_info[se]["ID"])
 
             # first segments is always a leap destination (da capo)
-            if ss == 0:
+            if ss == boundary_times[0]:
                 segment_info[ss]["type"] = "leap_end"
 
     # clean up and ORDER all the jump destination information
